@@ -984,13 +984,9 @@ func (a *APK) cachePackage(ctx context.Context, pkg InstallablePackage, exp *exp
 	ctlHex := hex.EncodeToString(exp.ControlHash)
 	ctlDst := filepath.Join(cacheDir, ctlHex+".ctl.tar.gz")
 
-	verifhook.Point("pkg.pre-advertise-ctl")
-	if err := paths.AdvertiseCachedFile(exp.ControlFile, ctlDst); err != nil {
-		return nil, err
-	}
-	verifhook.Point("pkg.post-advertise-ctl")
-
-	exp.ControlFile = ctlDst
+	// The control section is advertised LAST (below): cachedPackage starts from its name, so
+	// nothing of this package may be visible under that name before everything else is. A missing
+	// <ctlhash>.sig.tar.gz next to an advertised control section then really means "unsigned".
 
 	if exp.SignatureFile != "" {
 		sigDst := filepath.Join(cacheDir, ctlHex+".sig.tar.gz")
@@ -1028,6 +1024,14 @@ func (a *APK) cachePackage(ctx context.Context, pkg InstallablePackage, exp *exp
 	verifhook.Point("pkg.post-advertise-tar")
 
 	exp.TarFile = tarDst
+
+	verifhook.Point("pkg.pre-advertise-ctl")
+	if err := paths.AdvertiseCachedFile(exp.ControlFile, ctlDst); err != nil {
+		return nil, err
+	}
+	verifhook.Point("pkg.post-advertise-ctl")
+
+	exp.ControlFile = ctlDst
 
 	// Re-initialize the tarfs with the renamed file.
 	// TODO: Split out the tarfs Index creation from the FS.
